@@ -144,13 +144,14 @@ CONTAINER = {
     "ImageSet.ImageDeleted": lambda o, d: d["name"] in o.fileNames,
     "ImageSet.ImageChanged": lambda o, d: d["name"] in o.fileNames,
     "Glyph.ImageCleared": _image_state,
+    "Glyph.ImageChanged": _image_state,
 }
 
 INTERESTING = set(PAYLOAD) | set(WILL) | set(CONTAINER) | {w[0] for w in WILL.values()}
 
 
 class Event(object):
-    __slots__ = ("name", "sender", "data", "subject", "old", "new", "now", "has_payload", "obs", "members", "error")
+    __slots__ = ("name", "sender", "data", "subject", "old", "new", "now", "has_payload", "obs", "members", "error", "raw")
 
     def __repr__(self):
         return "<%s old=%r new=%r now=%r obs=%r>" % (self.name, self.old, self.new, self.now, self.obs)
@@ -180,6 +181,7 @@ class Recorder(object):
         ev.old = ev.new = ev.now = ev.obs = ev.members = None
         ev.has_payload = False
         ev.error = None
+        ev.raw = None
         try:
             if isinstance(d, dict):
                 if "object" in d:
@@ -202,6 +204,8 @@ class Recorder(object):
                     nk = [k for k in d if k.startswith("new")][0]
                     ev.old, ev.new = copy.deepcopy(d[ok]), copy.deepcopy(d[nk])
                 ev.now = copy.deepcopy(getter(o, d))
+                if name == "Font.GlyphOrderChanged":
+                    ev.raw = copy.deepcopy(o.lib.get("public.glyphOrder"))     # the stored value the payload carries
             if name in WILL:
                 ev.obs = copy.copy(WILL[name][2](o, d))
             elif name in CONTAINER:
@@ -439,6 +443,10 @@ class World(object):
             put(o, a, getattr(o, a[0].lower() + a[1:]))
 
     # -- operations ----------------------------------------------------------------------------------
+    #
+    # `plan(op)` resolves the target, builds the objects the call needs and returns `(thunk, details)`;
+    # `do(op, mid)` = reset the recorders, plan, call `mid(details)` (a reader: the model adaptor takes the
+    # pre-state there), run the thunk.
 
     def make_contour(self, glyph, spec):
         c = glyph.instantiateContour() if spec.get("owned") else glyph.contourClass(pointClass=glyph.pointClass)
@@ -449,23 +457,47 @@ class World(object):
         c.dirty = False
         return c
 
-    def do(self, op):
-        """executes one op; returns (status, result) with status 'ok' | 'skip' | 'err:<Class>'"""
+    def do(self, op, mid=None):
+        """executes one op; returns (status, details) with status 'ok' | 'skip' | 'err:<Class>'"""
         self.rec.events = []
         self.rec.all_names = []
         self.late.events = []
         self.late.all_names = []
+        details = {}
         try:
             with warnings.catch_warnings():
                 warnings.simplefilter("ignore")
-                r = self._do(op)
-            return "ok", r
+                thunk, details = self.plan(op)
+                if mid is not None:
+                    mid(details)
+                thunk()
+            return "ok", details
         except Skip:
-            return "skip", None
+            return "skip", details
         except Exception as e:
-            return "err:" + type(e).__name__, None
+            details["error"] = "%s: %s" % (type(e).__name__, e)
+            seen = (list(self.rec.events), list(self.late.events))
+            self.release_leaked_holds()
+            self.rec.events, self.late.events = seen
+            return "err:" + type(e).__name__, details
 
-    def _do(self, op):
+    def release_leaked_holds(self):
+        """defcon's composite mutators hold the object's notifications without try/finally: when an element
+        is rejected the hold is never released and the object stays mute.  The harness releases such a hold
+        after the failed call (outside the recorded window) so that later operations are observable."""
+        center = self.font.dispatcher
+        users = [id(o) for o in self.user_holds]
+        for (name, obs, observer) in list(center.getHeldNotifications()):
+            o = obs() if obs is not None else None
+            if o is None or id(o) in users:
+                continue
+            n = 0
+            while center.areNotificationsHeld(observable=o, notification=name, observer=None if observer is None else observer()) and n < 10:
+                center.releaseHeldNotifications(observable=o, notification=name, observer=None if observer is None else observer())
+                n += 1
+            self.leaked = getattr(self, "leaked", 0) + 1
+
+    def plan(self, op):
         k = op[0]
         font = self.font
         if k == "set":
@@ -494,8 +526,7 @@ class World(object):
                     raise Skip()
             if not (tk == "layers" and attr == "defaultLayer"):
                 v = copy.deepcopy(v)
-            setattr(o, attr, v)
-            return None
+            return (lambda: setattr(o, attr, v)), dict(target=o, attr=attr, value=v)
         if k == "setitem":
             o = self.resolve(op[1])
             key, v = op[2], op[3]
@@ -503,8 +534,11 @@ class World(object):
                 key = tuple(key)
             if op[1][0] == "images":
                 v = fg.png_bytes(v)
-            o[key] = copy.deepcopy(v)
-            return None
+            v = copy.deepcopy(v)
+
+            def t():
+                o[key] = v
+            return t, dict(target=o, key=key, value=v)
         if k == "delitem":
             o = self.resolve(op[1])
             key = op[2]
@@ -520,59 +554,70 @@ class World(object):
                 order = o.layerOrder
                 if isinstance(key, int):
                     key = order[key % len(order)]
-            del o[key]
-            return None
+
+            def t():
+                del o[key]
+            return t, dict(target=o, key=key)
         if k == "clear":
-            self.resolve(op[1]).clear()
-            return None
+            o = self.resolve(op[1])
+            return o.clear, dict(target=o)
         if k == "update":
             o = self.resolve(op[1])
             d = op[2]
             if op[1][0] == "kerning":
                 d = {tuple(a.split("|")): b for a, b in d.items()}
-            o.update(copy.deepcopy(d))
-            return None
+            d = copy.deepcopy(d)
+            return (lambda: o.update(d)), dict(target=o)
         if k == "hold":
             o = self.resolve(op[1])
-            o.holdNotifications(note="user")
-            self.user_holds.append(o)
-            return None
+
+            def t():
+                o.holdNotifications(note="user")
+                self.user_holds.append(o)
+            return t, dict(target=o)
         if k == "release":
             if not self.user_holds:
                 raise Skip()
-            o = self.user_holds.pop()
-            o.releaseHeldNotifications()
-            return None
+
+            def t():
+                o = self.user_holds.pop()
+                o.releaseHeldNotifications()
+            return t, {}
         if k == "save":
-            font.save(font.path if font.path else self.new_path())
-            return None
+            return (lambda: font.save(font.path if font.path else self.new_path())), {}
         if k == "touch":
             o = self.resolve(op[1])
-            if op[1][0] == "glyph":
-                len(o), o.bounds, o.anchors, o.lib.keys()
-            return None
+
+            def t():
+                if op[1][0] == "glyph":
+                    len(o), o.bounds, o.anchors, o.lib.keys()
+            return t, dict(target=o)
         if k == "call":
-            return self._call(op)
+            return self._plan_call(op)
         raise ValueError(op)
 
-    def _call(self, op):
+    def _plan_call(self, op):
         t, m, args = op[1], op[2], op[3:]
         o = self.resolve(t)
         tk = t[0]
+        d = dict(target=o, method=m)
         if tk == "glyph":
             g = o
             if m == "insertContour":
                 c = self.make_contour(g, args[1])
                 self.keep.append(c)
-                g.insertContour(args[0] % (len(g) + 1), c)
-            elif m == "removeContour":
+                i = args[0] % (len(g) + 1)
+                d.update(obj=c, index=i, kind="contour")
+                return (lambda: g.insertContour(i, c)), d
+            if m == "removeContour":
                 cs = list(g)
                 if not cs:
                     raise Skip()
                 c = cs[args[0] % len(cs)]
                 self.limbo["contour"].append(c)
-                g.removeContour(c)
-            elif m == "insertComponent":
+                d.update(obj=c, kind="contour")
+                return (lambda: g.removeContour(c)), d
+            if m == "insertComponent":
                 self.no_components_for(g.name)
                 c = g.instantiateComponent() if args[4] else g.componentClass()
                 self.keep.append(c)
@@ -581,138 +626,140 @@ class World(object):
                 if args[3] is not None:
                     c.identifier = args[3]
                 c.dirty = False
-                g.insertComponent(args[0] % (len(g.components) + 1), c)
-            elif m in ("removeComponent", "decomposeComponent"):
+                i = args[0] % (len(g.components) + 1)
+                d.update(obj=c, index=i, kind="component")
+                return (lambda: g.insertComponent(i, c)), d
+            if m in ("removeComponent", "decomposeComponent"):
                 cs = g.components
                 if not cs:
                     raise Skip()
                 c = cs[args[0] % len(cs)]
                 if m == "removeComponent":
                     self.limbo["component"].append(c)
-                getattr(g, m)(c)
-            elif m == "insertAnchor":
+                d.update(obj=c, kind="component")
+                return (lambda: getattr(g, m)(c)), d
+            if m in ("insertAnchor", "insertGuideline"):
+                kind = "anchor" if m == "insertAnchor" else "guideline"
                 a = dict(args[1])
+                d.update(kind=kind, dict=dict(a))
                 if args[2] == "object":
-                    a = g.anchorClass(anchorDict=a)
+                    a = g.anchorClass(anchorDict=a) if kind == "anchor" else g.guidelineClass(guidelineDict=a)
+                    d["obj"] = a
                 elif args[2] == "owned":
-                    a = g.instantiateAnchor(a)
+                    a = g.instantiateAnchor(a) if kind == "anchor" else g.instantiateGuideline(a)
+                    d["obj"] = a
                 self.keep.append(a)
-                g.insertAnchor(args[0] % (len(g.anchors) + 1), a)
-            elif m == "removeAnchor":
-                xs = g.anchors
+                i = args[0] % (len(getattr(g, kind + "s")) + 1)
+                d["index"] = i
+                return (lambda: getattr(g, m)(i, a)), d
+            if m in ("removeAnchor", "removeGuideline"):
+                kind = "anchor" if m == "removeAnchor" else "guideline"
+                xs = getattr(g, kind + "s")
                 if not xs:
                     raise Skip()
                 a = xs[args[0] % len(xs)]
-                self.limbo["anchor"].append(a)
-                g.removeAnchor(a)
-            elif m == "insertGuideline":
-                a = dict(args[1])
-                if args[2] == "object":
-                    a = g.guidelineClass(guidelineDict=a)
-                elif args[2] == "owned":
-                    a = g.instantiateGuideline(a)
-                self.keep.append(a)
-                g.insertGuideline(args[0] % (len(g.guidelines) + 1), a)
-            elif m == "removeGuideline":
-                xs = g.guidelines
-                if not xs:
-                    raise Skip()
-                a = xs[args[0] % len(xs)]
-                self.limbo["guideline"].append(a)
-                g.removeGuideline(a)
-            elif m == "reinsert":
+                self.limbo[kind].append(a)
+                d.update(obj=a, kind=kind)
+                return (lambda: getattr(g, m)(a)), d
+            if m == "reinsert":
                 kind = args[0]
                 if not self.limbo[kind]:
                     raise Skip()
                 if kind == "component":
                     self.no_components_for(g.name)
                 x = self.limbo[kind].pop()
-                cont = {"contour": lambda: list(g), "component": lambda: g.components,
-                        "anchor": lambda: g.anchors, "guideline": lambda: g.guidelines}[kind]()
-                getattr(g, "insert" + kind.capitalize())(args[1] % (len(cont) + 1), x)
-            elif m == "removeForeign":
+                cont = list(g) if kind == "contour" else getattr(g, kind + "s")
+                i = args[1] % (len(cont) + 1)
+                d.update(obj=x, index=i, kind=kind, method="insert" + kind.capitalize())
+                return (lambda: getattr(g, "insert" + kind.capitalize())(i, x)), d
+            if m == "removeForeign":
                 kind = args[0]
                 if not self.limbo[kind]:
                     raise Skip()
                 x = self.limbo[kind][-1]
-                getattr(g, "remove" + kind.capitalize())(x)
-            elif m == "copyDataFromGlyph":
+                d.update(obj=x, kind=kind, method="remove" + kind.capitalize())
+                return (lambda: getattr(g, "remove" + kind.capitalize())(x)), d
+            if m == "copyDataFromGlyph":
                 src = self.glyph_at(args[0], args[1])
                 if src is g:
                     raise Skip()
                 if src.components:
                     self.no_components_for(g.name)
-                g.copyDataFromGlyph(src)
-            elif m == "move":
-                g.move((args[0], args[1]))
-            elif m in ("clearContours", "clearComponents", "clearAnchors", "clearGuidelines", "clear", "clearImage",
-                       "decomposeAllComponents"):
-                for kind, xs in (("contour", list(g._contours)), ("component", g.components), ("anchor", g.anchors),
+                return (lambda: g.copyDataFromGlyph(src)), d
+            if m == "move":
+                return (lambda: g.move((args[0], args[1]))), d
+            if m in ("clearContours", "clearComponents", "clearAnchors", "clearGuidelines", "clear", "clearImage",
+                     "decomposeAllComponents"):
+                for kind, xs in (("contour", list(g)), ("component", g.components), ("anchor", g.anchors),
                                  ("guideline", g.guidelines)):
                     if m in ("clear", "clear" + kind.capitalize() + "s"):
                         self.limbo[kind].extend(xs)
                         del self.limbo[kind][:-4]
-                getattr(g, m)()
-            else:
-                raise ValueError(op)
-            return None
+                return getattr(g, m), d
+            raise ValueError(op)
         if tk in ("anchor", "component", "contour", "image"):
             if m == "move":
-                o.move((args[0], args[1]))
-            elif m == "reverse" and tk == "contour":
-                o.reverse()
-            else:
-                raise ValueError(op)
-            return None
+                return (lambda: o.move((args[0], args[1]))), d
+            if m == "reverse" and tk == "contour":
+                return o.reverse, d
+            raise ValueError(op)
         if tk == "layer":
             if m == "newGlyph":
-                self.keep.append(o.newGlyph(args[0]))
-            elif m == "insertGlyph":
+                d["name"] = args[0]
+                return (lambda: self.keep.append(o.newGlyph(args[0]))), d
+            if m == "insertGlyph":
                 src = self.glyph_at(args[0], args[1])
+                list(src)
+                name = args[2] if args[2] is not None else src.name
                 if src.components:
-                    self.no_components_for(args[2] if args[2] is not None else src.name)
-                self.keep.append(o.insertGlyph(src, name=args[2]))
-            else:
-                raise ValueError(op)
-            return None
+                    self.no_components_for(name)
+                d["name"] = name
+                return (lambda: self.keep.append(o.insertGlyph(src, name=args[2]))), d
+            raise ValueError(op)
         if tk == "layers":
             if m == "newLayer":
-                self.keep.append(o.newLayer(args[0]))
-            else:
-                raise ValueError(op)
-            return None
+                return (lambda: self.keep.append(o.newLayer(args[0]))), d
+            raise ValueError(op)
         if tk == "font":
             if m == "newGlyph":
-                self.keep.append(o.newGlyph(args[0]))
-            elif m == "insertGuideline":
+                return (lambda: self.keep.append(o.newGlyph(args[0]))), d
+            if m == "insertGuideline":
                 a = dict(args[1])
+                d.update(kind="fguideline", dict=dict(a))
                 if args[2] == "object":
                     a = o._guidelineClass(guidelineDict=a)
+                    d["obj"] = a
                 elif args[2] == "owned":
                     a = o.instantiateGuideline(a)
+                    d["obj"] = a
                 self.keep.append(a)
-                o.insertGuideline(args[0] % (len(o.guidelines) + 1), a)
-            elif m == "removeGuideline":
+                i = args[0] % (len(o.guidelines) + 1)
+                d["index"] = i
+                return (lambda: o.insertGuideline(i, a)), d
+            if m == "removeGuideline":
                 xs = o.guidelines
                 if not xs:
                     raise Skip()
                 a = xs[args[0] % len(xs)]
                 self.limbo["fguideline"].append(a)
-                o.removeGuideline(a)
-            elif m == "reinsertGuideline":
+                d.update(obj=a, kind="fguideline")
+                return (lambda: o.removeGuideline(a)), d
+            if m == "reinsertGuideline":
                 if not self.limbo["fguideline"]:
                     raise Skip()
                 x = self.limbo["fguideline"].pop()
-                o.insertGuideline(args[0] % (len(o.guidelines) + 1), x)
-            elif m == "removeForeignGuideline":
+                i = args[0] % (len(o.guidelines) + 1)
+                d.update(obj=x, index=i, kind="fguideline", method="insertGuideline")
+                return (lambda: o.insertGuideline(i, x)), d
+            if m == "removeForeignGuideline":
                 if not self.limbo["fguideline"]:
                     raise Skip()
-                o.removeGuideline(self.limbo["fguideline"][-1])
-            elif m == "clearGuidelines":
+                x = self.limbo["fguideline"][-1]
+                d.update(obj=x, kind="fguideline", method="removeGuideline")
+                return (lambda: o.removeGuideline(x)), d
+            if m == "clearGuidelines":
                 self.limbo["fguideline"].extend(o.guidelines)
                 del self.limbo["fguideline"][:-4]
-                o.clearGuidelines()
-            else:
-                raise ValueError(op)
-            return None
+                return o.clearGuidelines, d
+            raise ValueError(op)
         raise ValueError(op)
